@@ -111,7 +111,10 @@ UNARY = {
     'recip': lambda x: x.reciprocal(), 'recip_nz': lambda x: x.reciprocal(nozeros=True),
     'wod': lambda x: x.wod, 'frac': lambda x: x.frac(), 'int': lambda x: x.int(),
     'not': lambda x: ~x, 'logical_not': lambda x: x.logical_not(),
-    'as_float': lambda x: x.as_float(), 'copy': lambda x: x.copy(),
+    'as_float': lambda x: x.as_float(), 'copy': lambda x: x.copy(), 'as_int': lambda x: x.as_int(),
+    'as_numeric': lambda x: x.as_numeric(), 'as_bool': lambda x: x.as_bool(), 'vint': lambda x: x.int(),
+    'masked_single': lambda x: x.masked_single(), 'zero': lambda x: x.zero(), 'identity': lambda x: x.identity(),
+    'without_derivs': lambda x: x.without_derivs(), 'unmasked_count': lambda x: x.count_unmasked(),
     'pickle': lambda x: pickle.loads(pickle.dumps(x)),
     'flatten': lambda x: x.flatten(),
     'norm': lambda x: x.norm(), 'norm_sq': lambda x: x.norm_sq(), 'unit': lambda x: x.unit(),
@@ -148,6 +151,18 @@ UNARYP = {
     'any': lambda x, ax: x.any(axis=_ax(ax)), 'all': lambda x, ax: x.all(axis=_ax(ax)),
     'tvl_any': lambda x, ax: x.tvl_any(axis=_ax(ax)), 'tvl_all': lambda x, ax: x.tvl_all(axis=_ax(ax)),
     'rms': lambda x: x.rms(),
+    # the same public methods with their option values
+    'sign_o': lambda x, zeros, builtins: x.sign(zeros=zeros, builtins=builtins),
+    'int_o': lambda x, top, remask, clip, inclusive: x.int(top=top, remask=remask, clip=clip, inclusive=inclusive),
+    'round': lambda x, d: round(x, d),
+    'red_o': lambda x, name, ax, builtins, masked: getattr(x, name)(axis=_ax(ax), builtins=builtins, masked=masked),
+    'fn_nr': lambda x, name: getattr(x, name)(recursive=False),
+    'as_builtin': lambda x, masked: x.as_builtin(masked=masked),
+    'to_scalar': lambda x, k: x.to_scalar(k),
+    'mask_where_eq_o': lambda x, m, rep, rm: x.mask_where_eq(m, replace=rep, remask=rm),
+    'mw_between_o': lambda x, lo, hi, ends, rep, rm: x.mask_where_between(lo, hi, mask_endpoints=ends, replace=rep, remask=rm),
+    'mw_outside_o': lambda x, lo, hi, ends, rep, rm: x.mask_where_outside(lo, hi, mask_endpoints=ends, replace=rep, remask=rm),
+    'clip_o': lambda x, lo, hi, rm, inc: x.clip(lo, hi, remask=rm, inclusive=inc),
     'shrink': lambda x, bits, sh: x.shrink(np.array(bits, dtype=bool).reshape(sh)),
     'unshrink': lambda x, bits, sh: x.unshrink(np.array(bits, dtype=bool).reshape(sh)),
     'shrink_unshrink': lambda x, bits, sh: x.shrink(np.array(bits, dtype=bool).reshape(sh)).unshrink(
@@ -263,6 +278,7 @@ INPLACE = {
 
 def run_prog(prog, env, variant):
     """a program is a list of statements over the leaves of `env`, built ONCE and then mutated:
+         ['let', tree]                           bind the result of an expression to a NEW name (slot len(objs))
          ['query', tree]                         observe the result of an expression
          ['set', i, pattern, index_tree, rhs]    x_i[index] = rhs   (rhs: tree or number), then observe x_i
          ['iop', name, i, rhs]                   x_i <op>= rhs      (rhs: tree or number), then observe x_i
@@ -283,12 +299,16 @@ def run_prog(prog, env, variant):
         for st in prog:
             kind = st[0]
             try:
-                if kind == 'query':
+                if kind == 'let':
+                    label = 'let:' + st[1][0]
+                    objs.append(ev(st[1]))
+                    out.append((label, obs(objs[-1])))
+                elif kind == 'query':
                     label = 'query:' + st[1][0]
                     out.append((label, obs(ev(st[1]))))
                 elif kind == 'set':
                     it = st[3]
-                    label = 'setitem-' + (env[it[1]]['t'] if isinstance(it, list) and it[0] == 'v' else 'T')
+                    label = 'setitem-' + (env[it[1]]['t'] if isinstance(it, list) and it[0] == 'v' and it[1] < len(env) else 'T')
                     x = objs[st[1]]
                     x[_idx(st[2], ev(st[3]))] = ev(st[4])
                     out.append((label, obs(x)))
